@@ -25,7 +25,7 @@ Fixpoint act_st (p : bool) (l : list item) : option bool :=
 Lemma act_st_app p a : forall b, act_st p (a ++ b) = match act_st p a with Some q => act_st q b | None => None end.
 Proof.
   revert p. induction a as [|i a IH]; intros p b; cbn [app act_st]; [reflexivity|].
-  destruct i as [m c t x| | | | | |m who cc| | | | | |]; try apply IH.
+  destruct i as [m c t x| | | | | |m who cc| | | | | | |]; try apply IH.
   - destruct (x || p); [apply IH|reflexivity].
   - destruct who; apply IH.
 Qed.
@@ -67,7 +67,7 @@ Definition plain (i : item) : bool :=
   match i with ICall _ _ _ _ | IPanic _ 0 _ | IShut _ _ _ | IQuiet _ => false | _ => true end.
 
 Lemma act_st_plain i p : plain i = true -> act_st p [i] = Some p.
-Proof. destruct i as [| | | | | |m who cc| | | | | |]; try discriminate; try reflexivity. destruct who; [discriminate|reflexivity]. Qed.
+Proof. destruct i as [| | | | | |m who cc| | | | | | |]; try discriminate; try reflexivity. destruct who; [discriminate|reflexivity]. Qed.
 
 Lemma plain_not_req i : plain i = true -> is_req i = false.
 Proof. destruct i; try discriminate; reflexivity. Qed.
@@ -91,7 +91,7 @@ Proof.
   - apply Forall_app. split; [exact d|constructor; [apply plain_tag, Hp|constructor]].
   - intros Hb. destruct (e Hb) as (p & e1 & e2). exists p. rewrite act_st_app, e1, (act_st_plain i p Hp). auto.
   - rewrite existsb_app. cbn [existsb]. rewrite (plain_not_req i Hp), !orb_false_r. exact f.
-  - rewrite shut_of_snoc, <- g. destruct i as [| | | | |mm ww [dd|]| | | | | | |]; try discriminate; reflexivity.
+  - rewrite shut_of_snoc, <- g. destruct i as [| | | | |mm ww [dd|]| | | | | | | |]; try discriminate; reflexivity.
 Qed.
 
 Lemma FrP_shut_inv b now m j s w' : FrP m (x_w s) w' -> shut (w_mod w' m) = shut (w_mod (x_w s) m) ->
@@ -117,7 +117,7 @@ Proof.
   - intros Hb. destruct (e Hb) as (p & e1 & e2). exists p. rewrite act_st_app, e1.
     destruct i; try discriminate; cbn [act_st]; auto.
   - rewrite Hs, existsb_app. cbn [existsb]. rewrite Hr, orb_true_r.
-    destruct i as [| | | | |mm ww [dd|]| |mm| | | | |]; try discriminate; cbn [shut_step]; try reflexivity.
+    destruct i as [| | | | |mm ww [dd|]| |mm| | | | | |]; try discriminate; cbn [shut_step]; try reflexivity.
     destruct (shut (w_mod (x_w s) m)); reflexivity.
   - rewrite Hs, shut_of_snoc, g. reflexivity.
 Qed.
